@@ -18,6 +18,7 @@ using namespace nix;
 using namespace dag;
 
 static const std::string P = "C05";
+static bool g_after_axis_change = false;   // the axes were rewritten in place since the arrays were built
 static const RangeMatch MODES[] = {RangeMatch::Inclusive, RangeMatch::Exclusive};
 
 struct Setup {
@@ -266,6 +267,20 @@ int main(int argc, char **argv) {
             if (vf::deadline_hit()) break;
         }
         vf::count("tags", tags);
+        // ---- the axes of the referenced array and of the tagged feature are changed in place; the tags with as many entries as
+        //      dimensions (and with one entry) are evaluated again against the new coordinates
+        if (!vf::deadline_hit()) {
+            int c1 = mutate_axes(S.ref), c2 = mutate_axes(S.ft);
+            if (c1 > 0 && c2 >= 0) {
+                g_after_axis_change = true;
+                vf::case_desc(cfg.label + ": " + specs_name(cfg.specs) + " AFTER the axes of the referenced array and of the tagged feature were changed in place (ticks 2t+0.75; interval doubled, offset +0.75)");
+                vf::count("configurations_with_axes_changed_in_place");
+                long t2 = 0;
+                for (size_t L : {r, (size_t)1}) { if (L == 1 && r == 1) break; t2 += run_entries(S, L, r == 1 ? REDUCED : r == 2 ? MINI : TINY, k); if (vf::deadline_hit()) break; }
+                vf::count("tags_after_axis_change", t2);
+                g_after_axis_change = false;
+            } else if (c1 < 0 || c2 < 0) vf::count("axis_change_not_usable");
+        }
         if (samples < 3 && (ci % 16 == vf::opt.shard % 16 || vf::opt.only >= 0)) {
             samples++;
             vf::sample("{\"case\":" + std::to_string(ci) + ",\"array\":" + vf::jstr(specs_name(cfg.specs)) + ",\"tagged_feature_array\":" +
